@@ -203,7 +203,27 @@ Section Walk.
         end
       else walk_unsets_c close r bm comma
     end.
-  Definition walk_unsets := walk_unsets_c [125].
+  (* at STOP of a struct: the same scan closed by the brace (kept as its own fixpoint: = walk_unsets_c [125],
+     proofs/T2JBytesProofs.v walk_unsets_is_c) *)
+  Fixpoint walk_unsets (fs : list (fmeta * tdesc)) (bm : list Z) (comma : bool) : option (list Z) :=
+    match fs with
+    | [] => Some [125]
+    | f :: r =>
+      if negb (bm_isset bm (f_id (fst f))) then walk_unsets r bm comma
+      else if f_req (fst f) =? 1 then
+        (if o_write_required o
+         then match walk_unsets r bm true with
+              | Some tl => Some (sep comma ++ quote_ref (f_key (fst f)) ++ 58 :: zero_text (snd f) ++ tl)
+              | None => None
+              end
+         else None)
+      else if (f_req (fst f) =? 0) && o_write_default o then
+        match walk_unsets r bm true with
+        | Some tl => Some (sep comma ++ quote_ref (f_key (fst f)) ++ 58 :: zero_text (snd f) ++ tl)
+        | None => None
+        end
+      else walk_unsets r bm comma
+    end.
 
   Section Loops.
     Variable rec : tdesc -> list Z -> option (list Z * list Z).   (* doRecurse one nesting level down *)
